@@ -26,6 +26,12 @@ CAP_CFGS = {"quick": [("MC_Validate_Capture.cfg", {"MaxTests": 2, "RichCapture":
             "thorough": [("MC_Validate_Capture.cfg", {"MaxTests": 2, "RichCapture": True}),
                          ("MC_Validate_Capture3.cfg", {"MaxTests": 3, "RichCapture": False})]}
 RANDOM_N = {"quick": 6000, "thorough": 120000}
+LIFE_WRITES = ["ok", "missing", "extra", "wrong", "xv", "nonjson", "tb"]
+# quick: the write kind "wrong" stands for any deviation reported as ValidationError; its witnesses are drawn from the
+# wrong-typed / missing / extra / validator-rejected writes (job flag "mix_ve"); thorough enumerates the kinds separately
+LIFE_CFGS = {"quick": [("MC_Validate_Life.cfg", {"MaxSteps": 5, "LifeWrites": ["ok", "wrong", "nonjson", "tb"]}, 2)],
+             "thorough": [("MC_Validate_LifeAll.cfg", {"MaxSteps": 5, "LifeWrites": LIFE_WRITES}, 3),
+                          ("MC_Validate_Life6.cfg", {"MaxSteps": 6, "LifeWrites": ["ok", "wrong", "nonjson", "tb"]}, 2)]}
 
 
 def tla_json_lines(out, tag):
@@ -247,6 +253,67 @@ def check_capture(rep, tier):
     return n
 
 
+def judge_life(hist, obs):
+    """Step-by-step comparison of one real MemoryLogger with the lifecycle behaviour; None or (step, text)."""
+    ops = [h["op"] for h in hist]
+    for n, (h, o) in enumerate(zip(hist, obs), 1):
+        exp = h["res"]
+        if o.startswith("WRITE-RAISED") or o.startswith("FLUSH-RAISED"):
+            if exp != "ANY":
+                return n, "step %d (%s) raised: %s" % (n, h["op"], o)
+            continue
+        if exp in ("-", "ANY"):
+            continue
+        if h["op"] in ("V", "C"):
+            if not matches(exp, o):
+                what = "validate()" if h["op"] == "V" else "check_for_errors()"
+                since = ops[:n - 1]
+                if "R" in since:
+                    since = since[len(since) - since[::-1].index("R"):]
+                return n, "step %d: %s gives %s, the specification demands %s (written since the last reset(): %s)" % (
+                    n, what, o, exp, [x[2:] for x in since if x.startswith("W_")] or "nothing")
+        elif h["op"] == "F" and o != exp:
+            return n, "step %d: flushTracebacks returned %s messages, the specification demands %s" % (n, o[7:], exp[7:])
+    return None
+
+
+def check_life(rep, tier):
+    n = 0
+    for cfg, consts, nwit in LIFE_CFGS[tier]:
+        r = run_tlc("Validate", cfg, timeout=1500)
+        require_ok(r, cfg)
+        rep.add_tlc(cfg, r, consts)
+        if r.violated:
+            rep.violation("TLC: %s violated on the logger lifecycle of Validate.tla (%s)" % (r.violated, cfg),
+                          {"engine": "c14", "module": "checks_c14", "kind": "spec", "tlc_tail": r.out[-4000:]})
+            continue
+        lives = tla_json_lines(r.out, "LIFEJ")
+        r.out = ""
+        if not lives:
+            raise MachineryFailure("%s: no lifecycle behaviours printed" % cfg)
+        items = [{"i": i, "hist": h} for i, h in enumerate(lives)]
+        jobs = [{"seed": SEED, "nwit": 0, "cases": [], "lives": part, "life_nwit": nwit, "mix_ve": tier == "quick"}
+                for part in split(items, NPROC)]
+        reported = set()
+        for o in run_jobs(jobs):
+            for i, w, obs in o["lives"]:
+                hist = lives[i]
+                n += 1
+                rep.cov["traces_validated_against_impl"] += 1
+                if len(obs) != len(hist):
+                    raise MachineryFailure("lifecycle %d: %d observations for %d steps" % (i, len(obs), len(hist)))
+                bad = judge_life(hist, obs)
+                if bad and i not in reported:
+                    reported.add(i)
+                    rep.violation("one MemoryLogger, operations %s: %s" % ([h["op"] for h in hist], bad[1]),
+                                  {"engine": "c14", "module": "checks_c14", "kind": "life", "hist": hist, "w": w, "observed": obs,
+                                   "seed": SEED, "nwit": nwit, "i": i, "mix_ve": tier == "quick"})
+        for h in lives:
+            rep.count_case(["life", [x["op"] for x in h]], any(x["op"].startswith("W_") for x in h))
+        rep.sample({"cfg": cfg, "lifecycle": lives[len(lives) // 2]}, limit=6)
+    return n
+
+
 def check_vacuity(rep):
     """A deliberately wrong reading of the statement must be refuted by TLC (guards against vacuous invariants)."""
     r = run_tlc("Validate", "MC_Validate_Broken.cfg", timeout=600)
@@ -262,9 +329,13 @@ def run(prop, tier):
                        "(key class, JSON-encodable or not), companion traceback) enumerated by TLC from Validate.tla as conforming base + "
                        "deviations; each executed with several concrete witnesses, raw and through the public API of the declared type; "
                        "distinct = distinct abstract case; non-trivial = has a declared type or at least one entry. Capture runs = "
-                       "sequences of decorated tests (decorator, outcome, logged content) x initial default logger.")
+                       "sequences of decorated tests (decorator, outcome, logged content) x initial default logger. Lifecycles = every "
+                       "sequence of MaxSteps operations (write conforming / deviating kinds / traceback, validate, check_for_errors, "
+                       "reset, flushTracebacks) ending in a validation, replayed on ONE real MemoryLogger and compared step by step.")
     rep.assumptions = ["value classes are represented by the witnesses listed in harness/c14_exec.py",
-                       "each MemoryLogger is validated once (a second validate() sees serialized values: documented side effect)",
+                       "case analysis: each MemoryLogger is validated once; lifecycles: repeated validation uses fields whose serialization "
+                       "is idempotent, and results that depend on validate() having serialized an eliot:traceback message in place are "
+                       "left unspecified (ANY) until reset()",
                        "the error class is only demanded when exactly one rule is violated and the class is documented "
                        "(ValidationError / TypeError); otherwise any exception counts as a report"]
     rep.cov["python_oracle_clauses"] = []
@@ -273,8 +344,9 @@ def run(prop, tier):
         ncases = check_cases(rep, tier, prop)
         nrec = check_random(rep, tier)
         ncap = check_capture(rep, tier)
+        nlife = check_life(rep, tier)
         rep.cov["exhaustive"] = True
-        rep.cov["c14"] = {"cases": ncases, "recorded_executions": nrec, "capture_runs": ncap}
+        rep.cov["c14"] = {"cases": ncases, "recorded_executions": nrec, "capture_runs": ncap, "logger_lifecycles": nlife}
     except MachineryFailure as e:
         print("MACHINERY-FAILURE %s: %s" % (prop, e))
         rep.finish()
@@ -313,6 +385,15 @@ def replay(prop, obj, path):
         for t in printed_tuples(r.out.replace('<< "ACC"', '<<"ACC"'), "ACC"):
             print("re-execution %d: clause %r (specification demands %r)" % (t[1], t[2], t[3]))
             bad += bool(t[2])
+    elif kind == "life":
+        o = run_jobs([{"seed": obj["seed"], "nwit": 0, "cases": [], "lives": [{"i": obj["i"], "hist": obj["hist"]}], "life_nwit": obj["nwit"],
+                       "mix_ve": obj.get("mix_ve", False)}])[0]
+        bad = 0
+        for i, w, obs in o["lives"]:
+            b = judge_life(obj["hist"], obs)
+            print("witness %d: %s  %s" % (w, list(zip([h["op"] for h in obj["hist"]], obs)), "FAILS: " + b[1] if b else "ok"))
+            bad += bool(b)
+        print("specification: %s" % [(h["op"], h["res"]) for h in obj["hist"]])
     elif kind == "cap":
         o = run_jobs([{"seed": SEED, "nwit": 0, "cases": [], "caps": [{"i": 0, "init": obj["init"], "variant": obj["variant"], "run": obj["run"]}]}])[0]
         b = judge_cap(obj["run"], obj["res"], o["caps"][0])
